@@ -57,7 +57,8 @@ class Engine:
         self.methods: dict = {}
         self.spec_mode = 0
         self.inline_depth = 0
-        self.max_inline = 4
+        self.max_inline = 7
+        self.lazy_empty = True
         self.class_ids: dict = {}
         from . import lib
         lib.install(self)
@@ -196,6 +197,10 @@ class Engine:
             base = uniq[0]
         if has_none and not is_refkind(base) and base is not KVal:
             return KOpt(base)
+        if has_none and is_refkind(base):
+            import copy as _c
+            base = _c.copy(base)
+            base.nullable = True
         return base
 
     def _resolve_static(self, n, module):
@@ -283,19 +288,19 @@ class Engine:
         i = z3.Int("wf_i")
         if tag in ("F", "G"):
             if is_refkind(k):
-                body = z3.And(arr[r] >= 0, arr[r] < bound)
-                st.assume(z3.ForAll([r], body, patterns=[arr[r]]), quantified=True)
+                body = z3.And((arr[r] >= 0) if k.nullable else (arr[r] > 0), arr[r] < bound)
+                st.assume(qforall([r], body, patterns=[arr[r]]), quantified=True)
         elif sub == "n":
-            st.assume(z3.ForAll([r], arr[r] >= 0, patterns=[arr[r]]), quantified=True)
+            st.assume(qforall([r], arr[r] >= 0, patterns=[arr[r]]), quantified=True)
         elif tag == "L" and sub == "e":
             if is_refkind(k.elem):
-                body = z3.And(arr[r][i] >= 0, arr[r][i] < bound)
-                st.assume(z3.ForAll([r, i], body, patterns=[arr[r][i]]), quantified=True)
+                body = z3.And((arr[r][i] >= 0) if k.elem.nullable else (arr[r][i] > 0), arr[r][i] < bound)
+                st.assume(qforall([r, i], body, patterns=[arr[r][i]]), quantified=True)
         elif tag == "D" and sub == "v":
             if is_refkind(k.v):
                 kk = z3.Const("wf_k", sort_of(k.k))
-                body = z3.And(arr[r][kk] >= 0, arr[r][kk] < bound)
-                st.assume(z3.ForAll([r, kk], body, patterns=[arr[r][kk]]), quantified=True)
+                body = z3.And((arr[r][kk] >= 0) if k.v.nullable else (arr[r][kk] > 0), arr[r][kk] < bound)
+                st.assume(qforall([r, kk], body, patterns=[arr[r][kk]]), quantified=True)
 
     def alloc(self, st: State) -> z3.ExprRef:
         r = st.nref
@@ -318,7 +323,7 @@ class Engine:
         t = arr[obj.term]
         sv = SV(kind, t)
         if is_refkind(kind) and not self.spec_mode:
-            st.assume(z3.And(t >= 0, t < st.nref))
+            st.assume(z3.And((t >= 0) if kind.nullable else (t > 0), t < st.nref))
         self.propagate_guard(obj, sv, field)
         return sv
 
@@ -392,7 +397,7 @@ class Engine:
         t = self.harr(st, e)[l.term][i]
         sv = SV(l.kind.elem, t)
         if is_refkind(l.kind.elem) and not self.spec_mode:
-            st.assume(z3.And(t >= 0, t < st.nref))
+            st.assume(z3.And((t >= 0) if l.kind.elem.nullable else (t > 0), t < st.nref))
         _copy_guard(l, sv)
         return sv
 
@@ -434,7 +439,7 @@ class Engine:
         t = self.harr(st, v)[d.term][k.term]
         sv = SV(d.kind.v, t)
         if is_refkind(d.kind.v) and not self.spec_mode:
-            st.assume(z3.And(t >= 0, t < st.nref))
+            st.assume(z3.And((t >= 0) if d.kind.v.nullable else (t > 0), t < st.nref))
         _copy_guard(d, sv)
         return sv
 
@@ -609,16 +614,22 @@ class Engine:
         raise Unsupported("cannot box %r" % (k,))
 
     def materialize(self, st, sv: SV, kind: Kind) -> SV:
+        """Allocate the empty container now; the SV is updated in place so that aliases agree."""
         what = sv.const.what
         if what == "list" and isinstance(kind, KList):
-            return self.new_list(st, kind)
-        if what == "dict" and isinstance(kind, KDict):
-            return self.new_dict(st, kind)
-        if what == "set" and isinstance(kind, KSet):
-            return self.new_set(st, kind)
-        if what == "tuple" and isinstance(kind, KList):
-            return self.new_list(st, kind)
-        raise Unsupported("cannot materialize empty %s as %s" % (what, kind))
+            new = self.new_list(st, kind)
+            self.set_is_tuple(st, new, False)
+        elif what == "dict" and isinstance(kind, KDict):
+            new = self.new_dict(st, kind)
+        elif what == "set" and isinstance(kind, KSet):
+            new = self.new_set(st, kind)
+        elif what == "tuple" and isinstance(kind, KList):
+            new = self.new_list(st, kind)
+            self.set_is_tuple(st, new, True)
+        else:
+            raise Unsupported("cannot materialize empty %s as %s" % (what, kind))
+        sv.kind, sv.term, sv.const = new.kind, new.term, None
+        return sv
 
     def type_ob(self, st, cond, what, node):
         """A dynamic type test that must hold for the operation not to raise TypeError."""
@@ -642,6 +653,8 @@ class Engine:
         if kind is KVal:
             return self.box(st, sv)
         if k is KConst and isinstance(sv.const, EmptyLit):
+            if isinstance(kind, (KList, KDict, KSet)) and not kind.region and self.lazy_empty:
+                return sv   # stays polymorphic until it meets a region (or is used)
             return self.materialize(st, sv, kind)
         if kind is KFloat and (k is KInt or isinstance(k, KEnum)):
             return SV(KFloat, f_fin(z3.ToReal(sv.term)))
@@ -669,13 +682,25 @@ class Engine:
         if is_refkind(kind) and k is KNone:
             return SV(kind, z3.IntVal(0))
         if isinstance(kind, KRef) and isinstance(k, KRef):
-            return SV(kind, sv.term)   # up/down cast inside the class hierarchy (trusted annotation)
+            # keep the more derived static class (dynamic dispatch needs it)
+            ca, cb = self.class_by_name(k.cls), self.class_by_name(kind.cls)
+            if ca is not None and cb is not None and issubclass(ca, cb):
+                return sv
+            out = SV(kind, sv.term)
+            out.guard = sv.guard
+            return out
         if isinstance(kind, KList) and isinstance(k, KList):
-            if kind.elem == k.elem and (not k.region or not kind.region or k.region == kind.region):
-                return SV(kind if kind.region else k, sv.term) if kind.region == k.region else SV(KList(k.elem, kind.region or k.region), sv.term)
+            if kind.elem == k.elem and not kind.region:
+                return sv
+            if kind.elem == k.elem and not k.region and kind.region:
+                raise Unsupported("list region mismatch %s -> %s (line %s)" % (k, kind, getattr(node, "lineno", "?")))
         if isinstance(kind, KDict) and isinstance(k, KDict):
-            if kind.k == k.k and kind.v == k.v and (not k.region or not kind.region):
-                raise Unsupported("dict region mismatch %s -> %s" % (k, kind))
+            if kind.k == k.k and kind.v == k.v and not kind.region:
+                return sv       # a region is a refinement of the plain kind
+            raise Unsupported("dict region mismatch %s -> %s (line %s)" % (k, kind, getattr(node, "lineno", "?")))
+        if isinstance(kind, KSet) and isinstance(k, KSet):
+            if kind.elem == k.elem and not kind.region:
+                return sv
         if isinstance(kind, KList) and isinstance(k, KTuple):
             items = self.tuple_items(sv)
             l = self.new_list(st, kind, z3.IntVal(len(items)))
